@@ -27,8 +27,17 @@
        (C03_single_declaration_fault, C03_single_declaration_fault_text, C03_main_is_missing_text,
        C03_main_is_not_a_procedure_text), hence the full statement of the property for the union of the semantic and
        the declaration faults (C03_statement_declaration, C03_full_statement_declaration); one example per rule.
-   NOT proved: the statement for the missing-token SYNTAX faults, whose single-fault variants are not defined in Coq
-   (tools/splfaults.py validates them on generated programs). *)
+     - exactly one SYNTAX fault - one required closing token is missing: the `;` of an assignment, a call statement, a
+       variable or a type declaration, the `)` of a call statement or of the condition of an if / while, the `}` of a
+       procedure body (Proofs/SynFaults.v `fprog`, one constructor per kind of fault) => the parser returns the mandated
+       tree of the original program with exactly ONE error, the message of the missing token with the EMPTY range at the
+       token in front of the gap (C03_missing_token, C03_missing_semicolon, C03_missing_paren, C03_missing_brace); if the
+       original program is well-typed, build and analyze add nothing (C03_missing_token_analysis); from texts on: exactly
+       one diagnostic, the empty byte range at the END of the token in front of the gap (C03_missing_token_text,
+       C03_missing_semicolon_text, ..., C03_syntax_statement_holds); one example per kind of fault.
+   NOT proved: syntax faults inside expressions and type expressions (`)` of a parenthesis, `]` of an index / array size),
+   the `)` of a parameter list, missing opening tokens and `:` / `=` / `of` (tools/splfaults.py validates the ones it
+   generates on generated programs). *)
 From Spl Require Import Spec.Typing Model.Errors Proofs.TypingProofs.
 Local Open Scope nat_scope.
 
@@ -932,33 +941,44 @@ Example C03_ex_declaration_fault : declaration_fault dfx6 (EBuild (Redeclaration
 Proof. exists dfx6_table, (berr 7 8 (RedeclarationAsParameter s_a)). repeat split; [exact C03_ex_redeclaration_as_parameter | exact (le_n 8)]. Qed.
 
 (* ------------------------------------------------------------------------------------------ *)
-(* SYNTAX FAULTS, family A: a statement lost its `;`.  Proofs/SynFaults.v (read its header) describes a program with exactly
-   one such fault as a zipper `fprog` through the abstract syntax: one assignment or call statement, at any depth of one
-   procedure body, stands without its `;` (leaves FAsg / FCal); `orig_prog p` is the valid program it stems from (the `;` put
-   back), `fflatten p` its token kinds, `gap_prog p` the index of the token in front of the gap, `fexpected p` the tree SPL's
-   parser is to build, `fprog_ok p` = the original is a valid program and the token behind the gap is not `;` (then nothing
-   would be missing).  The token behind the gap is then `}`, `else` or the first token of a statement. *)
+(* SYNTAX FAULTS: ONE required closing token is missing.  Proofs/SynFaults.v (read its header) describes a program with
+   exactly one such fault as a zipper `fprog` through the abstract syntax, one constructor per kind of fault:
+     FAsg, FCal          the `;` of an assignment / a call statement            (at any depth of one procedure body)
+     FCalP               the `)` of the argument list of a call statement
+     FIfP, FIfPE, FWhlP  the `)` of the condition of an if (without / with else) / a while
+     FProcV              the `;` of a local variable declaration
+     FProcC              the `}` of a procedure body (in front of `proc`, `type` or the end)
+     FType               the `;` of a type declaration
+   `orig_prog p` is the valid program it stems from (the token put back), `gk_prog p` the kind of the missing token and
+   `msg_of_kind` its message (`;` -> MissingTrailingSemic, `)` / `}` -> MissingClosing), `fflatten p` the token kinds,
+   `gap_prog p` the index of the token in front of the gap, `fexpected p` the tree SPL's parser is to build (the mandated
+   tree of the original: the node whose closing token is missing carries the error, everything behind the gap is one token
+   further left), `fprog_ok p` = the original is a valid program and, behind a missing `;`, the next token is not `;`
+   (otherwise nothing is missing).  These are the faults tools/splfaults.py generates (`missing_token`) plus the `}`.
+   NOT covered: closing tokens inside expressions and type expressions (`)` of a parenthesis, `]` of an index or an
+   array size), `)` of a parameter list, opening tokens, `:` / `=` / `of`; evaluated, the model answers them with one
+   diagnostic at the end of the token in front of the gap as well, EXCEPT where the damaged text is also a damaged form of
+   another program (`x := (1 + 2 * 3;`: reported behind `3`; `x[i [1] := 1;`: `i[1]` is parsed as an index). *)
 From Spl Require Import Proofs.SynFaults Proofs.SynFaultsStmt Proofs.SynFaultsProg Proofs.SynFaultsText Proofs.SynFaultsSem.
 
-(* the faulty token vector is the original one without the `;` behind token number gap_prog *)
-Theorem C03_missing_semicolon_tokens : forall p,
-  ins (S (gap_prog p)) Semic (fflatten p) = flatten (orig_prog p) /\ (gap_prog p < List.length (fflatten p))%nat.
+(* the faulty token vector is the original one without the closing token behind token number gap_prog *)
+Theorem C03_missing_token_tokens : forall p,
+  ins (S (gap_prog p)) (gk_prog p) (fflatten p) = flatten (orig_prog p) /\ (gap_prog p < List.length (fflatten p))%nat.
 Proof. intros p. split; [apply fflatten_ins | apply gap_prog_lt]. Qed.
-Print Assumptions C03_missing_semicolon_tokens.
+Print Assumptions C03_missing_token_tokens.
 
-(* tree level: on ANY token vector with these kinds the parser returns the mandated tree of the original - the node of the
-   statement that lost its `;` ends one token earlier, everything behind the gap is shifted by one - with exactly ONE error:
-   MissingTrailingSemic, the EMPTY token range at the token in front of the gap *)
-Theorem C03_missing_semicolon : forall p toks,
+(* tree level: on ANY token vector with these kinds the parser returns the mandated tree with exactly ONE error: the message
+   of the missing token, with the EMPTY token range at the token in front of the gap *)
+Theorem C03_missing_token : forall p toks,
   fprog_ok p = true -> map tk toks = fflatten p ++ [Eof] ->
   parse toks = Done (fexpected p) /\
-  tree_errors (fexpected p) = [ {| e_s := gap_prog p; e_e := gap_prog p; e_m := EParse MissingTrailingSemic |} ].
+  tree_errors (fexpected p) = [ {| e_s := gap_prog p; e_e := gap_prog p; e_m := EParse (msg_of_kind (gk_prog p)) |} ].
 Proof. intros p toks Hok Hk. split; [exact (fparse p toks Hok Hk) | exact (fexpected_errors p)]. Qed.
-Print Assumptions C03_missing_semicolon.
+Print Assumptions C03_missing_token.
 
 (* no semantic follow-up: if the original program is well-typed, the tree of the faulty one is well-typed (with respect to
    the table build makes for it), so build and analyze return it unchanged *)
-Theorem C03_missing_semicolon_analysis : forall p G,
+Theorem C03_missing_token_analysis : forall p G,
   fprog_ok p = true -> well_typed (expected (orig_prog p)) G ->
   exists G', well_typed (fexpected p) G' /\ build_res (fexpected p) = ROk (fexpected p, G') /\
              analyze_res (fexpected p) G' = ROk (fexpected p).
@@ -966,78 +986,222 @@ Proof.
   intros p G Hok Hwt. destruct (orig_well_typed p G Hok Hwt) as [G' Hwt']. exists G'. split; [exact Hwt'|].
   split; [apply build_sound, (proj1 Hwt') | apply analyze_sound, (proj2 Hwt')].
 Qed.
-Print Assumptions C03_missing_semicolon_analysis.
+Print Assumptions C03_missing_token_analysis.
 
-(* from texts on: every text that lexes to the tokens of a well-typed program minus the `;` of one assignment or call gets
-   exactly ONE diagnostic, `missing trailing ;`, with the empty byte range at the END of the token in front of the gap *)
-Theorem C03_missing_semicolon_text : forall p t G toks tok,
+(* from texts on: every text that lexes to the tokens of a well-typed program minus one of these closing tokens gets exactly
+   ONE diagnostic, the message of the missing token, with the empty byte range at the END of the token in front of the gap *)
+Theorem C03_missing_token_text : forall p t G toks tok,
   fprog_ok p = true -> well_typed (expected (orig_prog p)) G ->
   lex t = Some toks -> map tk toks = fflatten p ++ [Eof] -> nth_error toks (gap_prog p) = Some tok ->
-  diagnostics t = Done [(te tok, te tok, EParse MissingTrailingSemic)].
-Proof. exact missing_semicolon_text_orig. Qed.
-Print Assumptions C03_missing_semicolon_text.
+  diagnostics t = Done [(te tok, te tok, EParse (msg_of_kind (gk_prog p)))].
+Proof. exact missing_token_text_orig. Qed.
+Print Assumptions C03_missing_token_text.
 
 (* ... the token in front of the gap exists *)
-Theorem C03_missing_semicolon_token : forall p toks,
+Theorem C03_missing_token_exists : forall p toks,
   map tk toks = fflatten p ++ [Eof] -> exists tok, nth_error toks (gap_prog p) = Some tok.
 Proof. exact gap_token. Qed.
-Print Assumptions C03_missing_semicolon_token.
+Print Assumptions C03_missing_token_exists.
 
-(* non-vacuity: the example program ex_p with the `;` of `j := j + 1;` (in the block of the while loop of main, in front of
-   `}`) taken out; and with the `;` of `x[j] := -j;` (in front of the statement `j := ...`) taken out *)
-Definition sfx_pre : list adecl := Eval vm_compute in firstn 2 (a_decls ex_p).
-Definition sfx_asg1 := SAsg (AIndex (nm s_x) c0 (e_f (FVar (nm s_j))) c0) c0 (e_f (FNeg c0 (FVar (nm s_j)))) c0.
-Definition sfx_asg2 := SAsg (nm s_j) c0 (CAdd (ABin (AMul (MFac (FVar (nm s_j)))) c0 APlus (MFac (lit 1)))) c0.
-Definition sfx_call := SCal c0 s_p c0 (Some (e_f (FVar (nm s_x)), [(c0, CAdd (AMul (MBin (MFac (FVar (nm s_j))) c0 MTimes (lit 2))))])) c0 c0.
-Definition sfx_main (blk : fstmts) : fdecl :=
-  FProc c0 c0 s_main c0 None c0 c0
-    [ {| v_c1 := c0; v_c2 := c0; v_x := s_x; v_c3 := c0; v_t := TName c0 s_v; v_c4 := c0 |};
-      {| v_c1 := c0; v_c2 := c0; v_x := s_j; v_c3 := c0; v_t := TName c0 s_int; v_c4 := c0 |} ]
-    (FLater (SAsg (AName c1 s_j) c0 (e_f (lit 0)) c0)
-       (FHere (FWhl c0 c0 (CBin (AMul (MFac (FVar (nm s_j)))) c0 CNe (AMul (MFac (lit 3)))) c0 (FBlk c0 blk c0)) (SCons sfx_call SNil))) c0.
-Definition sfx1 : fprog :=
-  {| fp_pre := sfx_pre; fp_post := []; fp_ceof := c0;
-     fp_decl := sfx_main (FLater sfx_asg1 (FHere (FAsg (nm s_j) c0 (CAdd (ABin (AMul (MFac (FVar (nm s_j)))) c0 APlus (MFac (lit 1))))) SNil)) |}.
-Definition sfx2 : fprog :=
-  {| fp_pre := sfx_pre; fp_post := []; fp_ceof := c0;
-     fp_decl := sfx_main (FHere (FAsg (AIndex (nm s_x) c0 (e_f (FVar (nm s_j))) c0) c0 (e_f (FNeg c0 (FVar (nm s_j))))) (SCons sfx_asg2 SNil)) |}.
-Example C03_ex_missing_semicolon_hyps :
-  orig_prog sfx1 = ex_p /\ orig_prog sfx2 = ex_p /\ fprog_ok sfx1 = true /\ fprog_ok sfx2 = true /\
-  gap_prog sfx1 = 90%nat /\ gap_prog sfx2 = 84%nat.
-Proof. vm_compute. repeat split; reflexivity. Qed.
-Example C03_ex_missing_semicolon_wt : well_typed (expected (orig_prog sfx1)) ex_table /\ well_typed (expected (orig_prog sfx2)) ex_table.
+(* per family.  A and D: a missing `;` (statement, variable declaration, type declaration) *)
+Theorem C03_missing_semicolon : forall p toks,
+  fprog_ok p = true -> gk_prog p = Semic -> map tk toks = fflatten p ++ [Eof] ->
+  parse toks = Done (fexpected p) /\
+  tree_errors (fexpected p) = [ {| e_s := gap_prog p; e_e := gap_prog p; e_m := EParse MissingTrailingSemic |} ].
+Proof. intros p toks Hok Hg Hk. pose proof (C03_missing_token p toks Hok Hk) as H. rewrite Hg in H. exact H. Qed.
+Print Assumptions C03_missing_semicolon.
+
+Theorem C03_missing_semicolon_text : forall p t G toks tok,
+  fprog_ok p = true -> gk_prog p = Semic -> well_typed (expected (orig_prog p)) G ->
+  lex t = Some toks -> map tk toks = fflatten p ++ [Eof] -> nth_error toks (gap_prog p) = Some tok ->
+  diagnostics t = Done [(te tok, te tok, EParse MissingTrailingSemic)].
 Proof.
-  replace (orig_prog sfx2) with ex_p by (vm_compute; reflexivity). replace (orig_prog sfx1) with ex_p by (vm_compute; reflexivity).
-  change (expected ex_p) with ex_tree. split; exact (conj C03_ex_wf C03_ex_wt).
+  intros p t G toks tok Hok Hg Hwt Hlex Hk Htok. pose proof (C03_missing_token_text p t G toks tok Hok Hwt Hlex Hk Htok) as H.
+  rewrite Hg in H. exact H.
 Qed.
+Print Assumptions C03_missing_semicolon_text.
+
+(* B: a missing `)` (call statement, condition of if / while) *)
+Theorem C03_missing_paren : forall p toks,
+  fprog_ok p = true -> gk_prog p = RParen -> map tk toks = fflatten p ++ [Eof] ->
+  parse toks = Done (fexpected p) /\
+  tree_errors (fexpected p) = [ {| e_s := gap_prog p; e_e := gap_prog p; e_m := EParse (MissingClosing 41) |} ].
+Proof. intros p toks Hok Hg Hk. pose proof (C03_missing_token p toks Hok Hk) as H. rewrite Hg in H. exact H. Qed.
+Print Assumptions C03_missing_paren.
+
+Theorem C03_missing_paren_text : forall p t G toks tok,
+  fprog_ok p = true -> gk_prog p = RParen -> well_typed (expected (orig_prog p)) G ->
+  lex t = Some toks -> map tk toks = fflatten p ++ [Eof] -> nth_error toks (gap_prog p) = Some tok ->
+  diagnostics t = Done [(te tok, te tok, EParse (MissingClosing 41))].
+Proof.
+  intros p t G toks tok Hok Hg Hwt Hlex Hk Htok. pose proof (C03_missing_token_text p t G toks tok Hok Hwt Hlex Hk Htok) as H.
+  rewrite Hg in H. exact H.
+Qed.
+Print Assumptions C03_missing_paren_text.
+
+(* C: the missing `}` of a procedure body *)
+Theorem C03_missing_brace : forall p toks,
+  fprog_ok p = true -> gk_prog p = RCurly -> map tk toks = fflatten p ++ [Eof] ->
+  parse toks = Done (fexpected p) /\
+  tree_errors (fexpected p) = [ {| e_s := gap_prog p; e_e := gap_prog p; e_m := EParse (MissingClosing 125) |} ].
+Proof. intros p toks Hok Hg Hk. pose proof (C03_missing_token p toks Hok Hk) as H. rewrite Hg in H. exact H. Qed.
+Print Assumptions C03_missing_brace.
+
+Theorem C03_missing_brace_text : forall p t G toks tok,
+  fprog_ok p = true -> gk_prog p = RCurly -> well_typed (expected (orig_prog p)) G ->
+  lex t = Some toks -> map tk toks = fflatten p ++ [Eof] -> nth_error toks (gap_prog p) = Some tok ->
+  diagnostics t = Done [(te tok, te tok, EParse (MissingClosing 125))].
+Proof.
+  intros p t G toks tok Hok Hg Hwt Hlex Hk Htok. pose proof (C03_missing_token_text p t G toks tok Hok Hwt Hlex Hk Htok) as H.
+  rewrite Hg in H. exact H.
+Qed.
+Print Assumptions C03_missing_brace_text.
+
+(* the statement of the property for the syntax faults: (2) of C03_statement_for, with the culprit being the EMPTY range at
+   the end of the token in front of the gap *)
+Definition C03_syntax_statement : Prop :=
+  forall p t G toks tok,
+    fprog_ok p = true -> well_typed (expected (orig_prog p)) G ->
+    lex t = Some toks -> map tk toks = fflatten p ++ [Eof] -> nth_error toks (gap_prog p) = Some tok ->
+    diagnostics t = Done [(te tok, te tok, EParse (msg_of_kind (gk_prog p)))].
+Theorem C03_syntax_statement_holds : C03_syntax_statement.
+Proof. exact missing_token_text_orig. Qed.
+Print Assumptions C03_syntax_statement_holds.
+
+(* ---- non-vacuity: the example program ex_p with one closing token taken out, one example per kind of fault ---- *)
+Definition sfx_type : adecl := Eval vm_compute in nth 0 (a_decls ex_p) (DType c0 c0 s_v c0 (TName c0 s_int) c0).
+Definition sfx_p : adecl := Eval vm_compute in nth 1 (a_decls ex_p) sfx_type.
+Definition sfx_main : adecl := Eval vm_compute in nth 2 (a_decls ex_p) sfx_type.
+Definition sfx_vx := {| v_c1 := c0; v_c2 := c0; v_x := s_x; v_c3 := c0; v_t := TName c0 s_v; v_c4 := c0 |}.
+Definition sfx_vj := {| v_c1 := c0; v_c2 := c0; v_x := s_j; v_c3 := c0; v_t := TName c0 s_int; v_c4 := c0 |}.
+Definition sfx_j0 := SAsg (AName c1 s_j) c0 (e_f (lit 0)) c0.
+Definition sfx_cond := CBin (AMul (MFac (FVar (nm s_j)))) c0 CNe (AMul (MFac (lit 3))).
+Definition sfx_asg1 := SAsg (AIndex (nm s_x) c0 (e_f (FVar (nm s_j))) c0) c0 (e_f (FNeg c0 (FVar (nm s_j)))) c0.
+Definition sfx_inc := CAdd (ABin (AMul (MFac (FVar (nm s_j)))) c0 APlus (MFac (lit 1))).
+Definition sfx_asg2 := SAsg (nm s_j) c0 sfx_inc c0.
+Definition sfx_blk := SBlk c0 (SCons sfx_asg1 (SCons sfx_asg2 SNil)) c0.
+Definition sfx_args : aargs := Some (e_f (FVar (nm s_x)), [(c0, CAdd (AMul (MBin (MFac (FVar (nm s_j))) c0 MTimes (lit 2))))]).
+Definition sfx_call := SCal c0 s_p c0 sfx_args c0 c0.
+Definition sfx_in_main (b : fstmts) : fprog :=
+  {| fp_pre := [sfx_type; sfx_p]; fp_decl := FProc c0 c0 s_main c0 None c0 c0 [sfx_vx; sfx_vj] b c0; fp_post := []; fp_ceof := c0 |}.
+Definition sfx_in_blk (blk : fstmts) : fprog :=
+  sfx_in_main (FLater sfx_j0 (FHere (FWhl c0 c0 sfx_cond c0 (FBlk c0 blk c0)) (SCons sfx_call SNil))).
+(* FAsg: `j := j + 1` in front of `}`; `x[j] := -j` in front of a statement *)
+Definition sfx1 : fprog := sfx_in_blk (FLater sfx_asg1 (FHere (FAsg (nm s_j) c0 sfx_inc) SNil)).
+Definition sfx2 : fprog := sfx_in_blk (FHere (FAsg (AIndex (nm s_x) c0 (e_f (FVar (nm s_j))) c0) c0 (e_f (FNeg c0 (FVar (nm s_j))))) (SCons sfx_asg2 SNil)).
+(* FCal / FCalP: the `;` / the `)` of `p(x, j * 2);` *)
+Definition sfx3 : fprog := sfx_in_main (FLater sfx_j0 (FLater (SWhl c0 c0 sfx_cond c0 sfx_blk) (FHere (FCal c0 s_p c0 sfx_args c0) SNil))).
+Definition sfx4 : fprog := sfx_in_main (FLater sfx_j0 (FLater (SWhl c0 c0 sfx_cond c0 sfx_blk) (FHere (FCalP c0 s_p c0 sfx_args c0) SNil))).
+(* FWhlP: the `)` of `while (j # 3)` *)
+Definition sfx5 : fprog := sfx_in_main (FLater sfx_j0 (FHere (FWhlP c0 c0 sfx_cond sfx_blk) (SCons sfx_call SNil))).
+(* FIfP: the `)` of `if (i < 2)` in p *)
+Definition sfx_i1 := SAsg (nm s_i) c0 (CAdd (ABin (AMul (MFac (FVar (AIndex (nm s_a) c0 (e_f (FVar (nm s_n))) c0)))) c0 APlus (MFac (lit 1)))) c0.
+Definition sfx6 : fprog :=
+  {| fp_pre := [sfx_type];
+     fp_decl := FProc c0 c0 s_p c0 (Some (PRef c0 c0 s_a c0 (TName c0 s_v), [(c0, PVal c0 s_n c0 (TName c0 s_int))])) c0 c0
+                  [ {| v_c1 := c0; v_c2 := c0; v_x := s_i; v_c3 := c0; v_t := TName c0 s_int; v_c4 := c0 |} ]
+                  (FLater sfx_i1 (FHere (FIfP c0 c0 (CBin (AMul (MFac (FVar (nm s_i)))) c0 CLt (AMul (MFac (lit 2))))
+                                           (SCal c0 s_p c0 (Some (e_f (FVar (nm s_a)), [(c0, e_f (FVar (nm s_i)))])) c0 c0)) SNil)) c0;
+     fp_post := [sfx_main]; fp_ceof := c0 |}.
+(* FProcV: the `;` of `var j: int` in main; FProcC: the `}` of p; FType: the `;` of the type declaration *)
+Definition sfx_body := SCons sfx_j0 (SCons (SWhl c0 c0 sfx_cond c0 sfx_blk) (SCons sfx_call SNil)).
+Definition sfx7 : fprog :=
+  {| fp_pre := [sfx_type; sfx_p]; fp_decl := FProcV c0 c0 s_main c0 None c0 c0 [sfx_vx] c0 c0 s_j c0 (TName c0 s_int) [] sfx_body c0;
+     fp_post := []; fp_ceof := c0 |}.
+Definition sfx8 : fprog :=
+  {| fp_pre := [sfx_type];
+     fp_decl := FProcC c0 c0 s_p c0 (Some (PRef c0 c0 s_a c0 (TName c0 s_v), [(c0, PVal c0 s_n c0 (TName c0 s_int))])) c0 c0
+                  [ {| v_c1 := c0; v_c2 := c0; v_x := s_i; v_c3 := c0; v_t := TName c0 s_int; v_c4 := c0 |} ]
+                  (SCons sfx_i1 (SCons (SIfT c0 c0 (CBin (AMul (MFac (FVar (nm s_i)))) c0 CLt (AMul (MFac (lit 2)))) c0
+                                           (SCal c0 s_p c0 (Some (e_f (FVar (nm s_a)), [(c0, e_f (FVar (nm s_i)))])) c0 c0)) SNil));
+     fp_post := [sfx_main]; fp_ceof := c0 |}.
+Definition sfx9 : fprog :=
+  {| fp_pre := []; fp_decl := FType c0 c0 s_v c0 (TArr c0 c0 c0 (LDec 3) c0 c0 (TName c0 s_int)); fp_post := [sfx_p; sfx_main]; fp_ceof := c0 |}.
+Definition sfx_all := [sfx1; sfx2; sfx3; sfx4; sfx5; sfx6; sfx7; sfx8; sfx9].
+Example C03_ex_missing_token_hyps :
+  Forall (fun p => orig_prog p = ex_p /\ fprog_ok p = true) sfx_all /\
+  map gk_prog sfx_all = [Semic; Semic; Semic; RParen; RParen; RParen; Semic; RCurly; Semic] /\
+  map gap_prog sfx_all = [90; 84; 100; 99; 75; 41; 64; 49; 8]%nat.
+Proof. vm_compute. repeat constructor. Qed.
+Lemma C03_ex_missing_token_wt : forall p, In p sfx_all -> well_typed (expected (orig_prog p)) ex_table.
+Proof.
+  intros p Hin. replace (orig_prog p) with ex_p.
+  - change (expected ex_p) with ex_tree. exact (conj C03_ex_wf C03_ex_wt).
+  - cbn [sfx_all In] in Hin. repeat (destruct Hin as [<-|Hin]; [vm_compute; reflexivity|]). destruct Hin.
+Qed.
+(* through the theorem: the text is a layout of the faulty token vector, the diagnostic is at the end of token gap_prog *)
+Ltac sfx_instance p n txt :=
+  let toks := fresh "toks" in let tok := fresh "tok" in
+  pose (toks := match lex (str txt) with Some l => l | None => [] end);
+  pose (tok := match nth_error toks n with Some x => x | None => {| tk := Eof; ts := 0; te := 0; terr := [] |} end);
+  match goal with |- _ = Done [(?a, _, ?m)] => change a with (te tok); change m with (EParse (msg_of_kind (gk_prog p))) end;
+  apply (C03_missing_token_text p _ ex_table toks tok);
+  [vm_compute; reflexivity | apply C03_ex_missing_token_wt; cbn [sfx_all In]; tauto | vm_compute; reflexivity ..].
+
 (* what the model computes (evaluated, independently of the theorems) ... *)
-Example C03_ex_missing_semicolon_text :
+Example C03_ex_missing_token_texts :
   diag_of "type v=array[3]of int;proc p(ref a:v,n:int){var i:int;i:=a[n]+1;if(i<2)p(a,i);}proc main(){var x:v;var j:int;// note
 j:=0;while(j#3){x[j]:=-j;j:=j+1}p(x,j*2);}" = Done [(148, 148, EParse MissingTrailingSemic)] /\
-  diag_of "type v = array [3] of int; proc p(ref a: v, n: int) { var i: int; i := a[n] + 1; if (i < 2) p(a, i); }
-proc main() { var x: v; var j: int; // note
-  j := 0; while (j # 3) { x[j] := -j   j := j + 1; } p(x, j * 2); }" = Done [(183, 183, EParse MissingTrailingSemic)].
-Proof. vm_compute. split; reflexivity. Qed.
+  diag_of "type v=array[3]of int;proc p(ref a:v,n:int){var i:int;i:=a[n]+1;if(i<2)p(a,i);}proc main(){var x:v;var j:int;// note
+j:=0;while(j#3){x[j]:=-j j:=j+1;}p(x,j*2);}" = Done [(141, 141, EParse MissingTrailingSemic)] /\
+  diag_of "type v=array[3]of int;proc p(ref a:v,n:int){var i:int;i:=a[n]+1;if(i<2)p(a,i);}proc main(){var x:v;var j:int;// note
+j:=0;while(j#3){x[j]:=-j;j:=j+1;}p(x,j*2)}" = Done [(158, 158, EParse MissingTrailingSemic)] /\
+  diag_of "type v=array[3]of int;proc p(ref a:v,n:int){var i:int;i:=a[n]+1;if(i<2)p(a,i);}proc main(){var x:v;var j:int;// note
+j:=0;while(j#3){x[j]:=-j;j:=j+1;}p(x,j*2;}" = Done [(157, 157, EParse (MissingClosing 41))] /\
+  diag_of "type v=array[3]of int;proc p(ref a:v,n:int){var i:int;i:=a[n]+1;if(i<2)p(a,i);}proc main(){var x:v;var j:int;// note
+j:=0;while(j#3{x[j]:=-j;j:=j+1;}p(x,j*2);}" = Done [(131, 131, EParse (MissingClosing 41))] /\
+  diag_of "type v=array[3]of int;proc p(ref a:v,n:int){var i:int;i:=a[n]+1;if(i<2 p(a,i);}proc main(){var x:v;var j:int;// note
+j:=0;while(j#3){x[j]:=-j;j:=j+1;}p(x,j*2);}" = Done [(70, 70, EParse (MissingClosing 41))] /\
+  diag_of "type v=array[3]of int;proc p(ref a:v,n:int){var i:int;i:=a[n]+1;if(i<2)p(a,i);}proc main(){var x:v;var j:int// note
+j:=0;while(j#3){x[j]:=-j;j:=j+1;}p(x,j*2);}" = Done [(108, 108, EParse MissingTrailingSemic)] /\
+  diag_of "type v=array[3]of int;proc p(ref a:v,n:int){var i:int;i:=a[n]+1;if(i<2)p(a,i);proc main(){var x:v;var j:int;// note
+j:=0;while(j#3){x[j]:=-j;j:=j+1;}p(x,j*2);}" = Done [(78, 78, EParse (MissingClosing 125))] /\
+  diag_of "type v=array[3]of int proc p(ref a:v,n:int){var i:int;i:=a[n]+1;if(i<2)p(a,i);}proc main(){var x:v;var j:int;// note
+j:=0;while(j#3){x[j]:=-j;j:=j+1;}p(x,j*2);}" = Done [(21, 21, EParse MissingTrailingSemic)].
+Proof. vm_compute. repeat split; reflexivity. Qed.
 (* ... and through the theorem *)
-Example C03_ex_missing_semicolon_instance :
+Example C03_ex_missing_token_FAsg_brace :
   diag_of "type v=array[3]of int;proc p(ref a:v,n:int){var i:int;i:=a[n]+1;if(i<2)p(a,i);}proc main(){var x:v;var j:int;// note
 j:=0;while(j#3){x[j]:=-j;j:=j+1}p(x,j*2);}" = Done [(148, 148, EParse MissingTrailingSemic)].
-Proof.
-  pose (toks := match lex (str "type v=array[3]of int;proc p(ref a:v,n:int){var i:int;i:=a[n]+1;if(i<2)p(a,i);}proc main(){var x:v;var j:int;// note
-j:=0;while(j#3){x[j]:=-j;j:=j+1}p(x,j*2);}") with Some l => l | None => [] end).
-  pose (tok := match nth_error toks 90 with Some x => x | None => {| tk := Eof; ts := 0; te := 0; terr := [] |} end).
-  change 148 with (te tok).
-  apply (C03_missing_semicolon_text sfx1 _ ex_table toks tok); [vm_compute; reflexivity | exact (proj1 C03_ex_missing_semicolon_wt) | vm_compute; reflexivity ..].
-Qed.
-Example C03_ex_missing_semicolon_instance2 :
-  diag_of "type v = array [3] of int; proc p(ref a: v, n: int) { var i: int; i := a[n] + 1; if (i < 2) p(a, i); }
-proc main() { var x: v; var j: int; // note
-  j := 0; while (j # 3) { x[j] := -j   j := j + 1; } p(x, j * 2); }" = Done [(183, 183, EParse MissingTrailingSemic)].
-Proof.
-  pose (toks := match lex (str "type v = array [3] of int; proc p(ref a: v, n: int) { var i: int; i := a[n] + 1; if (i < 2) p(a, i); }
-proc main() { var x: v; var j: int; // note
-  j := 0; while (j # 3) { x[j] := -j   j := j + 1; } p(x, j * 2); }") with Some l => l | None => [] end).
-  pose (tok := match nth_error toks 84 with Some x => x | None => {| tk := Eof; ts := 0; te := 0; terr := [] |} end).
-  change 183 with (te tok).
-  apply (C03_missing_semicolon_text sfx2 _ ex_table toks tok); [vm_compute; reflexivity | exact (proj2 C03_ex_missing_semicolon_wt) | vm_compute; reflexivity ..].
-Qed.
+Proof. sfx_instance sfx1 90%nat "type v=array[3]of int;proc p(ref a:v,n:int){var i:int;i:=a[n]+1;if(i<2)p(a,i);}proc main(){var x:v;var j:int;// note
+j:=0;while(j#3){x[j]:=-j;j:=j+1}p(x,j*2);}"%string. Qed.
+Example C03_ex_missing_token_FAsg_stmt :
+  diag_of "type v=array[3]of int;proc p(ref a:v,n:int){var i:int;i:=a[n]+1;if(i<2)p(a,i);}proc main(){var x:v;var j:int;// note
+j:=0;while(j#3){x[j]:=-j j:=j+1;}p(x,j*2);}" = Done [(141, 141, EParse MissingTrailingSemic)].
+Proof. sfx_instance sfx2 84%nat "type v=array[3]of int;proc p(ref a:v,n:int){var i:int;i:=a[n]+1;if(i<2)p(a,i);}proc main(){var x:v;var j:int;// note
+j:=0;while(j#3){x[j]:=-j j:=j+1;}p(x,j*2);}"%string. Qed.
+Example C03_ex_missing_token_FCal :
+  diag_of "type v=array[3]of int;proc p(ref a:v,n:int){var i:int;i:=a[n]+1;if(i<2)p(a,i);}proc main(){var x:v;var j:int;// note
+j:=0;while(j#3){x[j]:=-j;j:=j+1;}p(x,j*2)}" = Done [(158, 158, EParse MissingTrailingSemic)].
+Proof. sfx_instance sfx3 100%nat "type v=array[3]of int;proc p(ref a:v,n:int){var i:int;i:=a[n]+1;if(i<2)p(a,i);}proc main(){var x:v;var j:int;// note
+j:=0;while(j#3){x[j]:=-j;j:=j+1;}p(x,j*2)}"%string. Qed.
+Example C03_ex_missing_token_FCalP :
+  diag_of "type v=array[3]of int;proc p(ref a:v,n:int){var i:int;i:=a[n]+1;if(i<2)p(a,i);}proc main(){var x:v;var j:int;// note
+j:=0;while(j#3){x[j]:=-j;j:=j+1;}p(x,j*2;}" = Done [(157, 157, EParse (MissingClosing 41))].
+Proof. sfx_instance sfx4 99%nat "type v=array[3]of int;proc p(ref a:v,n:int){var i:int;i:=a[n]+1;if(i<2)p(a,i);}proc main(){var x:v;var j:int;// note
+j:=0;while(j#3){x[j]:=-j;j:=j+1;}p(x,j*2;}"%string. Qed.
+Example C03_ex_missing_token_FWhlP :
+  diag_of "type v=array[3]of int;proc p(ref a:v,n:int){var i:int;i:=a[n]+1;if(i<2)p(a,i);}proc main(){var x:v;var j:int;// note
+j:=0;while(j#3{x[j]:=-j;j:=j+1;}p(x,j*2);}" = Done [(131, 131, EParse (MissingClosing 41))].
+Proof. sfx_instance sfx5 75%nat "type v=array[3]of int;proc p(ref a:v,n:int){var i:int;i:=a[n]+1;if(i<2)p(a,i);}proc main(){var x:v;var j:int;// note
+j:=0;while(j#3{x[j]:=-j;j:=j+1;}p(x,j*2);}"%string. Qed.
+Example C03_ex_missing_token_FIfP :
+  diag_of "type v=array[3]of int;proc p(ref a:v,n:int){var i:int;i:=a[n]+1;if(i<2 p(a,i);}proc main(){var x:v;var j:int;// note
+j:=0;while(j#3){x[j]:=-j;j:=j+1;}p(x,j*2);}" = Done [(70, 70, EParse (MissingClosing 41))].
+Proof. sfx_instance sfx6 41%nat "type v=array[3]of int;proc p(ref a:v,n:int){var i:int;i:=a[n]+1;if(i<2 p(a,i);}proc main(){var x:v;var j:int;// note
+j:=0;while(j#3){x[j]:=-j;j:=j+1;}p(x,j*2);}"%string. Qed.
+Example C03_ex_missing_token_FProcV :
+  diag_of "type v=array[3]of int;proc p(ref a:v,n:int){var i:int;i:=a[n]+1;if(i<2)p(a,i);}proc main(){var x:v;var j:int// note
+j:=0;while(j#3){x[j]:=-j;j:=j+1;}p(x,j*2);}" = Done [(108, 108, EParse MissingTrailingSemic)].
+Proof. sfx_instance sfx7 64%nat "type v=array[3]of int;proc p(ref a:v,n:int){var i:int;i:=a[n]+1;if(i<2)p(a,i);}proc main(){var x:v;var j:int// note
+j:=0;while(j#3){x[j]:=-j;j:=j+1;}p(x,j*2);}"%string. Qed.
+Example C03_ex_missing_token_FProcC :
+  diag_of "type v=array[3]of int;proc p(ref a:v,n:int){var i:int;i:=a[n]+1;if(i<2)p(a,i);proc main(){var x:v;var j:int;// note
+j:=0;while(j#3){x[j]:=-j;j:=j+1;}p(x,j*2);}" = Done [(78, 78, EParse (MissingClosing 125))].
+Proof. sfx_instance sfx8 49%nat "type v=array[3]of int;proc p(ref a:v,n:int){var i:int;i:=a[n]+1;if(i<2)p(a,i);proc main(){var x:v;var j:int;// note
+j:=0;while(j#3){x[j]:=-j;j:=j+1;}p(x,j*2);}"%string. Qed.
+Example C03_ex_missing_token_FType :
+  diag_of "type v=array[3]of int proc p(ref a:v,n:int){var i:int;i:=a[n]+1;if(i<2)p(a,i);}proc main(){var x:v;var j:int;// note
+j:=0;while(j#3){x[j]:=-j;j:=j+1;}p(x,j*2);}" = Done [(21, 21, EParse MissingTrailingSemic)].
+Proof. sfx_instance sfx9 8%nat "type v=array[3]of int proc p(ref a:v,n:int){var i:int;i:=a[n]+1;if(i<2)p(a,i);}proc main(){var x:v;var j:int;// note
+j:=0;while(j#3){x[j]:=-j;j:=j+1;}p(x,j*2);}"%string. Qed.
